@@ -282,7 +282,7 @@ class _PureConstrained:
 
 class Family:
     def __init__(self, name, vtype, make, kind='sel', scale_free=True, order_free=True, declared=False,
-                 n_seats=True, small_weights=False, notes='', partial=False, pairwise_cands=False):
+                 n_seats=True, small_weights=False, notes='', partial=False, pairwise_cands=False, at_bottom=True):
         self.name = name
         self.vtype = vtype            # input vote type
         self.make = make              # () -> evaluator object
@@ -295,6 +295,7 @@ class Family:
         self.notes = notes
         self.partial = partial            # documented as not always filling all seats (quota-based)
         self.pairwise_cands = pairwise_cands   # candidates present = those occurring in a converted pair
+        self.at_bottom = at_bottom             # RankedToCondorcetVotes(unranked_at_bottom=...) in front of a Condorcet evaluator
 
 
 def families():
@@ -354,6 +355,18 @@ def families():
                     kind='seatless', n_seats=False, pairwise_cands=True))
     F.append(Family('schwartz_set', 'ranked', lambda: vc.PreConverted(cv.RankedToCondorcetVotes(), vcon.SchwartzSet()),
                     kind='seatless', n_seats=False, pairwise_cands=True))
+    # the same evaluators on INCOMPLETE pairwise dictionaries: truncated ballots converted with unranked_at_bottom=False leave pairs
+    # of candidates that never share a ballot without any entry (locked graphs with several sources, missing keys, one-sided pairs)
+    for nm in vcon.EVALUATORS:
+        F.append(Family(f'condorcet_{nm}_sparse', 'ranked',
+                        (lambda nm=nm: vc.PreConverted(cv.RankedToCondorcetVotes(unranked_at_bottom=False), vcon.EVALUATORS[nm])),
+                        declared=nm.startswith(('schulze', 'copeland', 'minimax')),
+                        order_free=not nm.startswith('rankedpairs'), pairwise_cands=True, at_bottom=False,
+                        notes='incomplete pairwise dictionary (unranked_at_bottom=False)'))
+    for snm, cls in [('condorcet_winner_sparse', vcon.CondorcetWinner), ('smith_set_sparse', vcon.SmithSet),
+                     ('schwartz_set_sparse', vcon.SchwartzSet)]:
+        F.append(Family(snm, 'ranked', (lambda cls=cls: vc.PreConverted(cv.RankedToCondorcetVotes(unranked_at_bottom=False), cls())),
+                        kind='seatless', n_seats=False, pairwise_cands=True, at_bottom=False))
     F.append(Family('benham', 'ranked_noshared', lambda: vs.Benham()))
     F.append(Family('tideman_alternative', 'ranked_noshared', lambda: vs.TidemanAlternative()))
     F.append(Family('baldwin', 'ranked_noshared', lambda: vs.Baldwin()))
@@ -481,6 +494,6 @@ def present_candidates(fam, prof):
     if fam.pairwise_cands and vt == 'ranked':
         import votelib.convert as cv
         nm = Names(prefix='cand')
-        pw = cv.RankedToCondorcetVotes().convert(build('ranked', prof, nm))
+        pw = cv.RankedToCondorcetVotes(unranked_at_bottom=fam.at_bottom).convert(build('ranked', prof, nm))
         return sorted({nm.i(c) for pair in pw for c in pair})
     return candidates_of(vt, prof)
